@@ -133,7 +133,7 @@ def translate(repo, only=None):
     src = os.path.join(repo, 'src', 'libertem_blobfinder')
     out = ['(* GENERATED by harness/translate_q.py from %s -- do not edit *)' % src,
            'From Coq Require Import QArith Qround Qabs Qminmax Bool ZArith.',
-           'From BF Require Import Model.Masks Model.FullMatch.',
+           'From BF Require Import Model.Lattice Model.WLS Model.Match Model.Masks Model.FullMatch.',
            'Open Scope Q_scope.', '']
     problems = []
     pat = ast.parse(open(os.path.join(src, 'common', 'patterns.py')).read())
@@ -273,7 +273,62 @@ def translate(repo, only=None):
             raise Untranslatable('corr_center changed: ' + ast.unparse(cc.value))
         out.append('Definition gen_us_corr_center (n : Q) : Q := inject_Z (Qceiling (n / 2)).')
 
-    for t in (t_circular, t_bgsub, t_crop_size, t_rgbs_map, t_bin, t_rgbs, t_within, t_calc, t_fullmatch, t_upsample):
+    def t_bgsub_mask():
+        """masks.background_subtraction: the per-pixel combination of the disk (m1, total s1) and the ring (m2, total s2)"""
+        f = find(msk, 'background_subtraction')
+        body = [st for st in f.body if not (isinstance(st, ast.Expr) and isinstance(st.value, ast.Constant))]
+        want_pre = {'mask_1': 'circular(centerX, centerY, imageSizeX, imageSizeY, radius_inner, antialiased=antialiased)', 'sum_1': 'np.sum(mask_1)',
+                    'mask_2': 'ring(centerX, centerY, imageSizeX, imageSizeY, radius, radius_inner, antialiased=antialiased)', 'sum_2': 'np.sum(mask_2)'}
+        q = Q()
+        q.env.update({'mask_1': 'm1', 'mask_2': 'm2', 'sum_1': 's1', 'sum_2': 's2'})
+        seen = {}
+        branches = []          # (condition or None, returned value)
+        for st in body:
+            if isinstance(st, ast.Assign) and isinstance(st.targets[0], ast.Name) and st.targets[0].id in want_pre and not branches:
+                seen[st.targets[0].id] = ast.unparse(st.value)
+            elif isinstance(st, ast.Assign) and isinstance(st.targets[0], ast.Name) and set(seen) == set(want_pre):
+                q.env[st.targets[0].id] = q.e(st.value)
+            elif isinstance(st, ast.If) and set(seen) == set(want_pre) and not st.orelse and len(st.body) == 1 and isinstance(st.body[0], ast.Return):
+                t = st.test
+                if not (isinstance(t, ast.Compare) and len(t.ops) == 1 and isinstance(t.ops[0], ast.Eq)):
+                    raise Untranslatable('background_subtraction: condition %s' % ast.unparse(t))
+                branches.append(('(Qeq_bool %s %s)' % (q.e(t.left), q.e(t.comparators[0])), q.e(st.body[0].value)))
+            elif isinstance(st, ast.Return) and set(seen) == set(want_pre):
+                branches.append((None, q.e(st.value)))
+                break
+            else:
+                raise Untranslatable('background_subtraction: statement not understood: %s' % ast.unparse(st)[:70])
+        if seen != want_pre:
+            raise Untranslatable('background_subtraction: disk / ring / totals are not computed as expected: %s' % sorted(set(seen.items()) ^ set(want_pre.items())))
+        if not branches or branches[-1][0] is not None:
+            raise Untranslatable('background_subtraction: no final return')
+        term = branches[-1][1]
+        for c, v in reversed(branches[:-1]):
+            term = '(if %s then %s else %s)' % (c, v, term)
+        out.append('(* masks.background_subtraction per pixel: disk value m1, ring value m2, totals s1, s2 over the requested array *)')
+        out.append('Definition gen_bgsub_px (m1 m2 s1 s2 : Q) : Q := %s.' % term)
+
+    def t_bin_defaults():
+        """masks.bounding_radius and the default layout of radial_bins (radius=None, n_bins=None)"""
+        f = find(msk, 'bounding_radius')
+        body = [ast.unparse(st) for st in f.body if not (isinstance(st, ast.Expr) and isinstance(st.value, ast.Constant))]
+        if body != ['dy = max(centerY, imageSizeY - centerY)', 'dx = max(centerX, imageSizeX - centerX)', 'return int(np.ceil(np.sqrt(dy ** 2 + dx ** 2))) + 1']:
+            raise Untranslatable('bounding_radius changed: %s' % body)
+        # int(ceil(sqrt(d2))) + 1 as a function of the squared distance d2 to the farthest corner: the smallest integer k with k^2 >= d2, plus 1
+        out.append('Definition gen_bounding_dy (centerY imageSizeY : Q) : Q := Qmax centerY (imageSizeY - centerY).')
+        out.append('Definition gen_bounding_radius_of_ceil_sqrt (k : Z) : Z := (k + 1)%Z.')
+        g = find(msk, 'radial_bins')
+        dflt = {}
+        for st in g.body:
+            if isinstance(st, ast.If) and isinstance(st.test, ast.Compare) and isinstance(st.test.ops[0], ast.Is) and isinstance(st.test.left, ast.Name) \
+                    and st.test.left.id in ('radius', 'n_bins') and len(st.body) == 1 and isinstance(st.body[0], ast.Assign):
+                dflt[st.test.left.id] = ast.unparse(st.body[0].value)
+        if dflt != {'radius': 'bounding_radius(centerX, centerY, imageSizeX, imageSizeY)', 'n_bins': 'int(np.round(radius - radius_inner))'}:
+            raise Untranslatable('radial_bins defaults changed: %s' % dflt)
+        out.append('(* default number of bins: round half to even of (radius - radius_inner); the default radius is an integer (bounding_radius) *)')
+        out.append('Definition gen_default_n_bins (radius_int : Z) (radius_inner : Q) : Z := round_he (inject_Z radius_int - radius_inner).')
+
+    for t in (t_circular, t_bgsub, t_crop_size, t_rgbs_map, t_bin, t_rgbs, t_within, t_calc, t_fullmatch, t_upsample, t_bgsub_mask, t_bin_defaults):
         if only is None or t.__name__ in only:
             do(t)
     return '\n'.join(out) + '\n', problems
